@@ -175,6 +175,7 @@ func runC04(c *Ctx) {
 	c.Rule("C04.requeue", "coalesce.next forgets the key it dequeues on every path, so a change arriving while the previous value of the leaf is being sent is queued again (otherwise the subscriber never converges to the newest value)")
 	queueNextRepr(c, "C04.requeue")
 	resetRemoveAnnounce(c, "C04.reset-announce")
+	c.Borrow("C11", map[string]string{"C11.token": "C04.wakeup", "C11.wait-set": "C04.wait-set"}, "a lost wake-up leaves the sender asleep with changes pending: the subscriber never converges")
 	c.Rule("C04.registration-kept", "a stream's registration survives the end of other streams: removeQuery prunes a node only when it holds neither clients nor children (a pruned node silently stops every later change from reaching the subscribers registered below it)")
 	removeQueryPrune(c, "C04.registration-kept")
 	c.Rule("C04.reg-before-walk", "on every path of Server.Subscribe in STREAM mode, a call that registers the subscription with the match tree (reaches match.AddQuery) precedes every `go` of a function that walks the cache (reaches Cache.Query); STREAM paths that start a walk or the sender contain a registration")
